@@ -374,6 +374,11 @@ def _misc_line(rng):
         lo, hi = _range(rng)
         gmin, gmax = rng.pick([(0, 2 ** 32 - 1), (1, 2147483646), (0, 1), (5, 9), (0, 2 ** 24), (0, 2 ** 24 + 1), (100, 2 ** 31)])
         g = rng.pick([gmin, gmax, rng.randrange(gmin, gmax + 1), rng.randrange(gmin, gmax + 1)])
+        if rng.chance(0.4):
+            # the same distribution object with a second generator of another range
+            gmin2, gmax2 = rng.pick([(0, 2 ** 32 - 1), (1, 2147483646), (0, 1), (5, 9), (0, 2 ** 24)])
+            g2 = rng.pick([gmin2, gmax2, rng.randrange(gmin2, gmax2 + 1)])
+            return "urd2 %s %s %d %d %d %d %d %d" % (f2h(lo), f2h(hi), gmin, gmax, g, gmin2, gmax2, g2)
         return "urd %s %s %d %d %d" % (f2h(lo), f2h(hi), gmin, gmax, g)
     return "color %d" % rng.pick([0, 1, 2, 3, 2 ** 32 - 1, 2254525, 2254526, rng.randrange(0, 2 ** 32), rng.randrange(0, 100000)])
 
@@ -511,7 +516,9 @@ def oracle(line, out, mode):
     elif op == "pcg":
         if [int(t, 16) for t in o] != ref_pcg32(int(w[1]), int(w[2]), int(w[3])):
             return "pcg32 stream differs from the reference PCG32 for this (seed, sequence)"
-    elif op in ("biased", "urdp", "urd"):
+    elif op in ("biased", "urdp", "urd", "urd2"):
+        if op == "urd2":
+            return None   # judged by the correspondence with the model only (three draws, two generator ranges)
         if op == "urd":
             lo, hi = h2f(w[1]), h2f(w[2])
             span = r32(float((int(w[4]) - int(w[3])) % 2 ** 32))
